@@ -276,6 +276,15 @@ def run_impl(ops, base, timeout=120, exe=None, env=None, sub="run"):
             out.pop()
         status = "timeout"
         stderr = ""
+    # `merge` reports the visiting order of the older files (an input of the model): split it off
+    global LAST_MERGE_ORDERS
+    orders = {}
+    for i, o in enumerate(out):
+        if i < len(ops) and ops[i] == "merge" and " order=" in o:
+            res, order = o.split(" order=", 1)
+            out[i] = res
+            orders[i] = order
+    LAST_MERGE_ORDERS = orders
     if len(out) < len(ops):
         why = "died:" + status
         m = re.search(r"(fatal error: [^\n]*|panic: [^\n]*|signal [A-Z]+[^\n]*|unexpected fault address[^\n]*)", stderr)
@@ -283,6 +292,15 @@ def run_impl(ops, base, timeout=120, exe=None, env=None, sub="run"):
             why += ":" + m.group(1).replace(" ", "_")[:80]
         out = out + [why] * (len(ops) - len(out))
     return out
+
+
+LAST_MERGE_ORDERS = {}
+
+
+def model_ops(ops, orders=None):
+    """op lines for the model: nondeterministic choices of the real run become inputs"""
+    orders = LAST_MERGE_ORDERS if orders is None else orders
+    return [("merge order=" + orders[i]) if (op == "merge" and i in orders) else op for i, op in enumerate(ops)]
 
 
 def run_model(ops, timeout=300):
